@@ -146,6 +146,10 @@ def load_findings(ctx):
     directly as well so that the check is self-contained before the merge."""
     known = list(ctx.known())
     path = os.path.join(lib.VERIF, "findings.d", "C09.json")
+    if os.environ.get("C09_FINDINGS_FILE"):
+        # verification of prepared fixes: take this property's entries ONLY from the given fragment (e.g. C09.json.after-fix)
+        path = os.environ["C09_FINDINGS_FILE"]
+        known = [k for k in known if k.get("property") != ctx.prop]
     if os.path.exists(path):
         with open(path) as f:
             for e in json.load(f):
